@@ -172,6 +172,42 @@ theorem resume_locals_bound : maybeUnbound = [] := by decide +kernel
 
 example : (calls.filter fun c => c.1 == "FlowProposal.resume").length ≥ 3 := by decide +kernel
 
+/-- The state the C01 model (live-set evolution) and the C13 model (interrupts) speak about, plus the entries of the
+evidence state (C02), as attributes of the standard sampler. -/
+def runStateFields : List (String × String) := [
+  ("NestedSampler", "iteration"), ("NestedSampler", "live_points"), ("NestedSampler", "nested_samples"),
+  ("NestedSampler", "insertion_indices"), ("NestedSampler", "logLmin"), ("NestedSampler", "logLmax"),
+  ("NestedSampler", "accepted"), ("NestedSampler", "rejected"), ("NestedSampler", "acceptance_history"),
+  ("NestedSampler", "state"), ("NestedSampler", "condition"),
+  ("_NSIntegralState", "logLs"), ("_NSIntegralState", "log_vols"), ("_NSIntegralState", "logZ"), ("_NSIntegralState", "oldZ"),
+  ("_NSIntegralState", "logw"), ("_NSIntegralState", "info"), ("_NSIntegralState", "gradients"), ("_NSIntegralState", "nlive")]
+
+/-- Composition fact used by C01/C13 ("checkpoint/resume restores the pickled state"): for EVERY state of the sampler
+(any values) and whatever the resume path derives, `resume ∘ checkpoint` returns each attribute of the C01/C13/C02 run
+state unchanged — because, on the tables generated from the current sources, none of them is dropped by the
+`__getstate__` in force and none is assigned by the resume path. -/
+theorem run_state_survives_checkpoint_resume {α : Type} (cf : String × String) (h : cf ∈ runStateFields)
+    (s fresh : List (String × α)) :
+    (resumeState tables sites cf.1 fresh (pickleState tables cf.1 s)).lookup cf.2 = s.lookup cf.2 := by
+  have hall : runStateFields.all (fun cf => !dropped tables cf.1 cf.2 && !touched tables sites cf.1 cf.2
+      && (attrUniverse tables cf.1).contains cf.2) = true := by decide +kernel
+  have := List.all_eq_true.mp hall cf h
+  simp only [Bool.and_eq_true, Bool.not_eq_true'] at this
+  exact resume_pickle_lookup tables sites cf.1 cf.2 s fresh this.1.1 this.1.2
+
+example : (resumeState tables sites "NestedSampler" [("iteration", 0), ("proposal", 9)]
+    (pickleState tables "NestedSampler" [("iteration", 35), ("model", 1), ("proposal", 2)])).lookup "iteration" = some 35 := by
+  decide +kernel
+
+/-- The two hypotheses behind `run_state_survives_checkpoint_resume` are needed: a dropped attribute (`model`) does not
+come back from the pickle, and an attribute the resume path assigns (`proposal`) takes the derived value. -/
+theorem run_state_survives_fails_without_pickled_untouched :
+    (resumeState tables sites "NestedSampler" ([] : List (String × Nat))
+      (pickleState tables "NestedSampler" [("iteration", 35), ("model", 1)])).lookup "model" = none
+    ∧ (resumeState tables sites "NestedSampler" [("proposal", 9)]
+      (pickleState tables "NestedSampler" [("iteration", 35), ("proposal", 2)])).lookup "proposal" = some 9 := by
+  decide +kernel
+
 /-! ## (b) the accounts, for every history -/
 
 /-- Likelihood evaluations and likelihood time are cumulative: after ANY history, if a process is alive and every
